@@ -42,7 +42,7 @@ var c12FilePool = []string{"a.txt", "gen.txt", "x.o", "y.o", "lib/z.o", "build/o
 var c12Literals = []string{"gen.txt", "build", "build/sub", "missing.out", "dist", "x.o", "bin/tool", "out", "src/gen", "report[1].txt", "out-v?.dat", "latest", "assets", "cur"}
 var c12LinkPool = [][2]string{{"latest", "keep/me.txt"}, {"assets", "../sibling"}, {"cur", "build"}, {"lib/link.o", "../x.o"}}
 var c12Globs = []string{"*.o", "**/*.o", "build/*", "nomatch/*.zzz", "*", "src/**/*.c", "*.{o,bin}", "**/*.bin", "lib/*"}
-var c12Dangerous = []string{"", ".", "..", "./", "build/..", "spokfile", "../proj", "./spokfile", "build/../.."}
+var c12Dangerous = []string{"", ".", "..", "./", "build/..", "spokfile", "../proj", "./spokfile", "build/../..", "build/../", "./.", "src/./..", "@PROJ@", "@PROJ@/", "@PROJ@/spokfile", "@PROJ@/.."}
 var c12VarNames = []string{"OUT", "BIN_DIR", "DIST", "EMPTY", "GEN"}
 
 func c12Gen(r *core.Rng) c12case {
@@ -79,7 +79,7 @@ func c12Gen(r *core.Rng) c12case {
 		case 0:
 			t := core.Pick(r, c12Literals)
 			if dangerous && r.Chance(40) {
-				t = core.Pick(r, c12Dangerous)
+				t = core.Pick(r, c12Dangerous[:12])
 			}
 			k.Outs = append(k.Outs, c12out{Kind: "literal", Text: t})
 		case 1:
@@ -87,6 +87,9 @@ func c12Gen(r *core.Rng) c12case {
 				continue
 			}
 			v := core.Pick(r, c12Literals)
+			if r.Chance(15) {
+				v = "@PROJ@/" + v // an absolute path inside the project
+			}
 			if dangerous && r.Chance(50) {
 				v = core.Pick(r, c12Dangerous)
 			}
@@ -100,14 +103,14 @@ func c12Gen(r *core.Rng) c12case {
 	return k
 }
 
-func (k c12case) text() string {
+func (k c12case) text(proj string) string {
 	var b strings.Builder
 	for _, o := range k.Outs {
 		if o.Kind == "var" {
 			if o.Join {
-				fmt.Fprintf(&b, "%s := join(\"%s\")\n", o.Text, o.Value)
+				fmt.Fprintf(&b, "%s := join(\"%s\")\n", o.Text, strings.ReplaceAll(o.Value, "@PROJ@", proj))
 			} else {
-				fmt.Fprintf(&b, "%s := \"%s\"\n", o.Text, o.Value)
+				fmt.Fprintf(&b, "%s := \"%s\"\n", o.Text, strings.ReplaceAll(o.Value, "@PROJ@", proj))
 			}
 		}
 	}
@@ -174,7 +177,7 @@ func c12Judge(c *core.Ctx, k c12case, res *core.ShardResult) (vs []core.Violatio
 		_ = os.MkdirAll(filepath.Dir(full), 0o755)
 		_ = os.Symlink(l[1], full)
 	}
-	text := k.text()
+	text := k.text(proj)
 	_ = os.WriteFile(filepath.Join(proj, "spokfile"), []byte(text), 0o644)
 	if k.HasCache {
 		_ = core.WriteFiles(proj, map[string]string{".spok/cache.json": `{"build":"","other":""}`, ".spok/.gitignore": "*\n", ".spok/CACHEDIR.TAG": "Signature: 8a477f597d28d172789f06886806bc55"})
@@ -195,9 +198,9 @@ func c12Judge(c *core.Ctx, k c12case, res *core.ShardResult) (vs []core.Violatio
 		case "literal":
 			declared[filepath.Join(proj, o.Text)] = true
 		case "var":
-			v := o.Value
+			v := strings.ReplaceAll(o.Value, "@PROJ@", proj)
 			switch {
-			case o.Join:
+			case o.Join && !filepath.IsAbs(v):
 				// join() gives the absolute cleaned path against the working directory of the invocation
 				v = filepath.Join(cwd, v)
 			case !filepath.IsAbs(v):
@@ -243,8 +246,8 @@ func c12Judge(c *core.Ctx, k c12case, res *core.ShardResult) (vs []core.Violatio
 			case "literal":
 				p = filepath.Join(proj, o.Text)
 			case "var":
-				p = o.Value
-				if o.Join {
+				p = strings.ReplaceAll(o.Value, "@PROJ@", proj)
+				if o.Join && !filepath.IsAbs(p) {
 					p = filepath.Join(cwd, p)
 				} else if !filepath.IsAbs(p) {
 					p = filepath.Join(proj, p)
